@@ -257,7 +257,7 @@ package jet
 //@   ensures PInv(t) && result != nil && WFTag(result) && fresh(result)
 
 //@ func (*Template).newNumber
-//@   props C02 C04 C12
+//@   props C02 C04 C12 C20
 //@   requires t != nil && t.lex != nil && 0 <= t.lex.lastPos && t.lex.lastPos <= len(t.lex.input) && (typ == itemCharConstant ==> len(text) >= 1)
 //@   loop 0 invariant true
 //@   ensures result1 == nil ==> result0 != nil && fresh(result0) && result0.NodeType == NodeNumber && result0.NodeBase.Line >= 1
@@ -460,40 +460,40 @@ package jet
 //@   nopanic
 //@   ensures [appended-last] len(l.Nodes) == old(len(l.Nodes)) + 1 && l.Nodes[len(l.Nodes) - 1] == n && forall(i, 0, old(len(l.Nodes)), l.Nodes[i] == old(l.Nodes[i]))
 //@ func (*Template).newList
-//@   props C02 C03 C08
+//@   props C02 C03 C08 C20
 //@   requires t != nil
 //@   nopanic
 //@   ensures [a-new-list-is-empty] result != nil && fresh(result) && len(result.Nodes) == 0 && result.NodeBase.NodeType == NodeList && result.NodeBase.Pos == pos
 //@ func (*Template).newText
-//@   props C02 C03
+//@   props C02 C03 C20
 //@   requires t != nil
 //@   nopanic
 //@   ensures [text-nodes-carry-the-text] result != nil && fresh(result) && len(result.Text) == len(text) && result.NodeBase.NodeType == NodeText && result.NodeBase.Pos == pos
 
 // Every use of a name gets a node of its own carrying the line it was read on (C12: errors name the failing line).
 //@ func (*Template).newIdentifier
-//@   props C02 C12
+//@   props C02 C12 C20
 //@   requires t != nil
 //@   nopanic
 //@   ensures [identifier-nodes-are-not-shared] {C12} result != nil && fresh(result) && result.NodeBase.Line == line && result.NodeBase.TemplatePath == t.Name && result.NodeBase.NodeType == NodeIdentifier && result.Ident == ident && result.NodeBase.Pos == pos
 // Literal and command nodes record the line they were read on (C12: errors raised on them name a 1-based line).
 //@ func (*Template).newString
-//@   props C02 C12
+//@   props C02 C12 C20
 //@   requires t != nil && t.lex != nil && 0 <= t.lex.lastPos && t.lex.lastPos <= len(t.lex.input)
 //@   nopanic
 //@   ensures [literal-nodes-record-their-line] {C12} result != nil && fresh(result) && result.NodeBase.Line >= 1 && result.NodeBase.TemplatePath == t.Name && result.NodeBase.NodeType == NodeString && result.Text == text
 //@ func (*Template).newBool
-//@   props C02 C12
+//@   props C02 C12 C20
 //@   requires t != nil && t.lex != nil && 0 <= t.lex.lastPos && t.lex.lastPos <= len(t.lex.input)
 //@   nopanic
 //@   ensures [literal-nodes-record-their-line] {C12} result != nil && fresh(result) && result.NodeBase.Line >= 1 && result.NodeBase.TemplatePath == t.Name && result.NodeBase.NodeType == NodeBool
 //@ func (*Template).newNil
-//@   props C02 C12
+//@   props C02 C12 C20
 //@   requires t != nil && t.lex != nil && 0 <= t.lex.lastPos && t.lex.lastPos <= len(t.lex.input)
 //@   nopanic
 //@   ensures [literal-nodes-record-their-line] {C12} result != nil && fresh(result) && result.NodeBase.Line >= 1 && result.NodeBase.TemplatePath == t.Name && result.NodeBase.NodeType == NodeNil
 //@ func (*Template).newCommand
-//@   props C02 C12
+//@   props C02 C12 C20
 //@   requires t != nil && t.lex != nil && 0 <= t.lex.lastPos && t.lex.lastPos <= len(t.lex.input)
 //@   nopanic
 //@   ensures [command-nodes-record-their-line] {C12} result != nil && fresh(result) && result.NodeBase.Line >= 1 && result.NodeBase.TemplatePath == t.Name && result.NodeBase.NodeType == NodeCommand && result.CallExprNode.BaseExpr == nil && result.CallExprNode.CallArgs.Exprs == nil && !result.CallExprNode.CallArgs.HasPipeSlot
